@@ -455,6 +455,14 @@ func evalRT(spec *iso8583.MessageSpec, st *impl.Tree, wire bool) (class, detail 
 	if first != "" {
 		return "presence", first, true
 	}
+	if !wire {
+		// the same Marshal into a message that already holds other values: every primitive data
+		// element the struct writes (non-zero, or zero with keepzero) ends up as in the new message
+		// - a zero keepzero member blanks what was there -, every other element keeps what it held
+		if d := remarshalDiff(spec, ptr, m1); d != "" {
+			return "value", d, true
+		}
+	}
 	src := m1
 	if wire {
 		if _, hasMTI := m1.GetFields()[0]; !hasMTI {
@@ -495,6 +503,68 @@ func evalRT(spec *iso8583.MessageSpec, st *impl.Tree, wire bool) (class, detail 
 		return "value", first, true
 	}
 	return "", "", true
+}
+
+// remarshalDiff: Marshal(ptr) into a message whose primitive data elements were populated before
+func remarshalDiff(spec *iso8583.MessageSpec, ptr reflect.Value, fresh *iso8583.Message) string {
+	used := iso8583.NewMessage(spec)
+	held := map[int]string{}
+	ids := make([]int, 0, len(spec.Fields))
+	for id := range spec.Fields {
+		ids = append(ids, id)
+	}
+	sort.Ints(ids)
+	for _, id := range ids {
+		if id < 2 {
+			continue
+		}
+		var err error
+		switch spec.Fields[id].(type) {
+		case *field.String:
+			err = used.Field(id, "Z")
+		case *field.Numeric:
+			err = used.Field(id, "7")
+		case *field.Hex:
+			err = used.Field(id, "AB")
+		case *field.Binary:
+			err = used.BinaryField(id, []byte{0xAB})
+		default:
+			continue
+		}
+		if err != nil {
+			continue
+		}
+		if s, err := used.GetString(id); err == nil {
+			held[id] = s
+		}
+	}
+	if err := func() (err error) {
+		defer func() {
+			if r := recover(); r != nil {
+				err = fmt.Errorf("panic: %v", r)
+			}
+		}()
+		return used.Marshal(ptr.Interface())
+	}(); err != nil {
+		return "Marshal into a message that already holds values fails although Marshal into a new message succeeds: " + err.Error()
+	}
+	fset := fresh.GetFields()
+	for _, id := range ids {
+		before, was := held[id]
+		if !was {
+			continue
+		}
+		got, _ := used.GetString(id)
+		if _, written := fset[id]; written {
+			want, _ := fresh.GetString(id)
+			if got != want {
+				return fmt.Sprintf("data element %d held %q; after Marshal it holds %q, but the same Marshal into a new message gives %q", id, before, got, want)
+			}
+		} else if got != before {
+			return fmt.Sprintf("data element %d is not written by the struct, held %q and holds %q after Marshal", id, before, got)
+		}
+	}
+	return ""
 }
 
 func samePresenceField(a, b field.Field) bool {
